@@ -49,6 +49,7 @@ KINDS = {
     "hrdyn": ("&(dyn for<'x> Fn(&'x u64) -> u64 + Send + Sync)", 1),
     "fnptr": ("fn(u64) -> u64", 1),
     "selfref": ("&Self", 1),
+    "mutw": ("&mut u64", 1),
     "paren": ("(u64)", 1),
     "qual": ("::core::primitive::u64", 1),
     "qself": ("<u64 as ::core::ops::Add>::Output", 1),
@@ -59,7 +60,7 @@ KINDS = {
     "intosole": ("impl Into<Tracked>", 1),
     "intonever": ("impl Into<Tracked>", 1),
 }
-SPECIAL_KINDS = ("intosole", "intonever")
+SPECIAL_KINDS = ("intosole", "intonever", "mutw")
 
 
 class Param:
@@ -122,6 +123,8 @@ class Param:
             return [n]
         if k == "refstatic":
             return [f"*{n}"]
+        if k == "mutw":
+            return [f"{{ let __old = *{n}; *{n} = __old ^ 0x5a5a; __old }}"]
         if k == "dynauto":
             return [f"{n}(7)"]
         if k == "u32":
@@ -193,6 +196,8 @@ class Param:
             return ("", f"v[{k}]", [f"v[{k}]"], 1)
         if kd == "refstatic":
             return ("", f"sim::leak_static(v[{k}])", [f"v[{k}]"], 1)
+        if kd == "mutw":
+            return (f"let mut mw{k} = v[{k}];", f"&mut mw{k}", [f"v[{k}]"], 1)
         if kd == "dynauto":
             return (f"let da{k} = v[{k}]; let dc{k} = move |x: u64| x ^ da{k};", f"&dc{k}", [f"7 ^ v[{k}]"], 1)
         if kd == "u32":
@@ -856,6 +861,12 @@ single(Fn("bva_single", ("byval_any", []), ["u64", "u64"]))
 module("mbyval", "Mbyval", [Fn("mbv_ref", ("impl", ["F0"]), ["u64", "u64"]), Fn("mbv_val", ("byval_any", []), ["u64", "u64"]),
                             Fn("mbv_ref2", ("gen", ["F0"]), ["u64", "u64"]), Fn("ambv_val", ("byval_any", []), ["u64", "u64"], is_async=True)])
 module("mbyval2", "Mbyval2", [Fn("mbw_val", ("byval_any", []), ["u64", "u64"]), Fn("mbw_ref", ("impl", ["F0"]), ["u64", "u64"])])
+single(Fn("argn_pos1", ("impl", ["F0"]), ["u64", "name=arg1:u64"]))
+single(Fn("argn_pos2", ("impl", ["F0"]), ["name=arg2:u64", "name=arg0:u64", "u64"]))
+# `&mut` parameters the function writes through (the write must reach the caller)
+single(Fn("mutw1", ("impl", ["F0"]), ["mutw", "u64"], calls=["f0"]))
+single(Fn("amutw1", ("impl", ["Af0"]), ["u64", "mutw"], is_async=True))
+single(Fn("mutw_nd", ("nodeps", []), ["mutw", "mutw"], opts="no_deps"))
 # parameter names that differ only by leading underscores
 single(Fn("und_names", ("impl", ["F0"]), ["u64", "name=limit:u64", "name=_limit:u64"], calls=["f0"]))
 single(Fn("aund_names", ("impl", ["Af0"]), ["name=_x:u64", "name=__x:u64", "name=x:u64"], is_async=True))
@@ -1405,6 +1416,8 @@ trait_section("ABorrowInd", "borrow", [
 trait_section("ByRefFl", "ref", [Fn("rfl1", SELF, ["u64", "u64"]), Fn("rfl2", SELF, ["u64", "u64"])], supers=": 'static", flavours=("Sync", "Send", "Send + Sync"))
 trait_section("ByBorrowFl", "borrow", [Fn("bfl1", SELF, ["u64", "u64"])], supers=": 'static", flavours=("Sync", "Send + Sync"))
 trait_section("ARefFl", "ref", [Fn("arfl1", SELF, ["u64", "u64"], is_async=True)], async_trait=True, supers=": Sync + 'static", flavours=("Sync", "Send + Sync"))
+trait_section("PlainMutw", "self", [Fn("pmutw", SELF, ["mutw", "u64"]), Fn("apmutw", SELF, ["u64", "mutw"], is_async=True)])
+trait_section("ByRefMutw", "ref", [Fn("rmutw", SELF, ["mutw", "u64"])], supers=": 'static")
 trait_section("PlainUnd", "self", [Fn("pund1", SELF, ["u64", "name=limit:u64", "name=_limit:u64"]), Fn("pund2", SELF, ["name=_x:u64", "name=__x:u64", "name=x:u64"]),
                                    Fn("apund", SELF, ["name=_v:u64", "name=v:u64"], is_async=True)])
 trait_section("ByRefUnd", "ref", [Fn("rund1", SELF, ["name=limit:u64", "name=_limit:u64"]), Fn("rund2", SELF, ["name=__k:u64", "name=_k:u64"])], supers=": 'static")
@@ -1498,6 +1511,44 @@ def tagged_trait(name, delegate, methods):
     bundle_traits.append((name + real, False))
 
 
+def copy_supertrait():
+    """`#[entrait] trait Gauge: UnitSup` where `UnitSup: Copy` has a BY-VALUE method with the same name
+    as Gauge's `&self` method (decoy, function id 60009); the provider is a small Copy type"""
+    cid = new_container()
+    cfg = ccfg(cid)
+    ms = [Fn("gscale", SELF, ["u64", "u64"]), Fn("goffset", SELF, ["u64", "u64"]), Fn("agscale", SELF, ["u64", "u64"], is_async=True)]
+    for fn in ms:
+        fn.cid = cid
+        fn.container_hetero = False
+        FN_COUNTER[0] += 2
+        fn.fn_id = FN_COUNTER[0] - 1
+        fn.fn_ids = (fn.fn_id, fn.fn_id)
+        fn.method_id = METHOD_COUNTER[0]
+        METHOD_COUNTER[0] += 1
+        fn.section = "trait"
+        fn.props = ["C06", "C14"]
+        fn.dynamic = False
+        METHODS.append(fn)
+        ALL_FNS[fn.name] = fn
+        fn.lookups = 0
+        fn.trait_call = f"Gauge::{fn.name}(&app.copy_impl, {{args}})"
+        fn.direct_call = f"Gauge::{fn.name}(app.copy_impl.as_ref(), {{args}})"
+        fn.recv_expr = "sim::addr(app.copy_impl.as_ref())"
+    text = cmark(cid)
+    text += (f"{cfg}pub trait UnitSup: Copy {{\n    fn gscale(self, p0: u64, p1: u64) -> u64;\n    fn goffset(self, p0: u64, p1: u64) -> u64;\n}}\n"
+             f"{cfg}#[entrait]\npub trait Gauge: UnitSup {{\n    fn gscale(&self, p0: u64, p1: u64) -> u64;\n    fn goffset(&self, p0: u64, p1: u64) -> u64;\n    async fn agscale(&self, p0: u64, p1: u64) -> u64;\n}}\n"
+             f"{cfg}impl UnitSup for CopyApp {{\n")
+    for nm in ("gscale", "goffset"):
+        text += f"    fn {nm}(self, p0: u64, p1: u64) -> u64 {{\n        let __f = sim::enter(60009, 0, &[]);\n        let _ = (p0, p1);\n        sim::exit(__f, &[])\n    }}\n"
+    text += f"}}\n{cfg}impl<T: UnitSup> UnitSup for Impl<T> {{\n"
+    for nm in ("gscale", "goffset"):
+        text += f"    fn {nm}(self, p0: u64, p1: u64) -> u64 {{\n        UnitSup::{nm}(self.into_inner(), p0, p1)\n    }}\n"
+    text += f"}}\n{cfg}impl Gauge for CopyApp {{\n" + "".join(self_impl_fn_text(m, f"{m.fn_id}") for m in ms) + "}\n"
+    corpus.append(text + cmark(0))
+
+
+corpus.append("#[derive(Clone, Copy)]\npub struct CopyApp {\n    pub base: u64,\n}\n")
+copy_supertrait()
 corpus.append("pub struct TagX;\npub struct TagY;\n")
 tagged_trait("PlainTags", "self", [Fn("ptag1", SELF, ["u64", "u64"]), Fn("ptag_unit", SELF, ["u64"], ret="unit"), Fn("aptag1", SELF, ["u64", "u64"], is_async=True)])
 tagged_trait("ByRefTags", "ref", [Fn("rtag1", SELF, ["u64", "u64"]), Fn("rtag2", SELF, ["u64", "u64"])])
@@ -1817,6 +1868,17 @@ inversion("DynInvRen", "DynInvRenImpl", "dyn", [
     (_renamed("dren1", ("from", "to"), ("to", "from")), ("any", []), []),
     (_renamed("dren2", ("lhs", "rhs", "k"), ("rhs", "k", "lhs")), ("any", []), []),
 ])
+inversion("InvArgn", "InvArgnImpl", "static", [
+    (Fn("iargn1", SELF, ["u64", "name=arg1:u64"]), ("any", []), []),
+    (Fn("iargn2", SELF, ["name=arg2:u64", "u64"]), ("impl", ["F0"]), ["f0"]),
+    (Fn("iargn3", SELF, ["wild:u64", "name=arg1:u64"]), ("any", []), []),
+    (Fn("iargn4", SELF, ["name=_arg2:u64", "name=arg3:u64", "name=arg1:u64"]), ("any", []), []),
+    (Fn("aiargn", SELF, ["u64", "name=arg1:u64"], is_async=True), ("impl", ["Af0"]), ["af0"]),
+], delegate_ident="DelegateInvArgn")
+inversion("DynInvArgn", "DynInvArgnImpl", "dyn", [
+    (Fn("dargn1", SELF, ["u64", "name=arg1:u64"]), ("any", []), []),
+    (Fn("dargn2", SELF, ["name=arg2:u64", "name=arg0:u64"]), ("any", []), []),
+])
 inversion("InvUnd", "InvUndImpl", "static", [(Fn("iund1", SELF, ["name=limit:u64", "name=_limit:u64"]), ("any", []), []), (Fn("iund2", SELF, ["name=_x:u64", "name=x:u64"]), ("impl", ["F0"]), ["f0"])],
           delegate_ident="DelegateInvUnd")
 inversion("InvPre", "InvPreImpl", "static", [(Fn(n, SELF, ["u64", "u64"]), ("any", []), []) for n in ("iget", "iget_all", "iget_", "ige")], delegate_ident="DelegateInvPre")
@@ -1891,6 +1953,10 @@ usingle(Fn("u_same", ("impl", ["U0"]), ["u64", "same:u64"], calls=["u0"]), "USam
 usingle(Fn("u_lt", ("impl", ["U0"]), ["refa", "u64"], ret="refarg", deps_lt=True, calls=["u0"]), "ULtMock")
 usingle(Fn("u_lt_gen", ("gen", ["U0"]), ["u64", "refa"], ret="refarg", deps_lt=True), "ULtGenMock")
 usingle(Fn("au_lt", ("impl", ["Au0"]), ["refa", "u64"], ret="refarg", deps_lt=True, is_async=True, calls=["au0"]), "AuLtMock")
+usingle(Fn("und_mutw", ("nodeps", []), ["mutw", "u64"], opts="no_deps"), "UndMutwMock")
+usingle(Fn("und_mutw2", ("nodeps", []), ["u64", "mutw", "mutw"], opts="no_deps"), "UndMutw2Mock")
+usingle(Fn("aund_mutw", ("nodeps", []), ["mutw", "u64"], opts="no_deps", is_async=True), "AundMutwMock")
+usingle(Fn("u_mutw", ("impl", ["U0"]), ["mutw", "u64"], calls=["u0"]), "UMutwMock")
 usingle(Fn("und_und", ("nodeps", []), ["name=limit:u64", "name=_limit:u64"], opts="no_deps"), "UndUndMock")
 usingle(Fn("und_same_first", ("nodeps", []), ["same:u64", "u64"], opts="no_deps"), "UndSameFirstMock")
 usingle(Fn("u_same_first", ("impl", ["U0"]), ["same:u64", "u64", "u64"], calls=["u0"]), "USameFirstMock")
@@ -2194,6 +2260,31 @@ def macro_generated():
         field = f"dyn_mactyd_{ab.lower()}"
         APP_FIELDS_TYPED.append((field, f"MacTydTarget{ab}"))
         text += (f"{cfg}impl AsRef<dyn MacTydImpl<Self>> for App<{which}> {{\n    fn as_ref(&self) -> &(dyn MacTydImpl<Self> + 'static) {{\n        sim::lookup({kd2});\n        &self.{field}\n    }}\n}}\n")
+    # macro-stamped impl blocks: one parameter named by the macro's caller, spelled like the one in the body
+    h1 = reg("mac_hy", False, "inversion", ("C07", "C14"), pair=True)
+    h2 = reg("mac_hyd", False, "inversion", ("C07",), pair=True)
+    h2.dynamic = True
+    text += ("pub struct MacHyTargetA(pub u64);\npub struct MacHyTargetB(pub u64);\npub struct MacHydTargetA(pub u64);\npub struct MacHydTargetB(pub u64);\n"
+             f"{cfg}#[entrait(MacHyImpl, delegate_by = DelegateMacHy)]\npub trait MacHy {{\n    fn mac_hy(&self, p0: u64, p1: u64) -> u64;\n}}\n"
+             f"{cfg}#[entrait(MacHydImpl, delegate_by = ref)]\npub trait MacHyd {{\n    fn mac_hyd(&self, p0: u64, p1: u64) -> u64;\n}}\n")
+    hybody = ("                let __f = sim::enter($id, sim::addr(deps), &[$p, dup]);\n                sim::user_alloc(&__f);\n                sim::sync_point(&__f);\n                sim::exit(__f, &[])\n")
+    text += (f"{cfg}macro_rules! mk_mac_hyblock {{\n    ($t:ty, $id:expr, $p:ident) => {{\n        #[entrait]\n        impl MacHyImpl for $t {{\n            pub fn mac_hy(deps: &impl F0, $p: u64, dup: u64) -> u64 {{\n"
+             + hybody + "            }\n        }\n    };\n}\n")
+    text += (f"{cfg}macro_rules! mk_mac_hydblock {{\n    ($t:ty, $id:expr, $p:ident) => {{\n        #[entrait(ref)]\n        impl MacHydImpl for $t {{\n            pub fn mac_hyd(deps: &impl F0, $p: u64, dup: u64) -> u64 {{\n"
+             + hybody + "            }\n        }\n    };\n}\n")
+    kd3 = lookup_kind("MacHyd")
+    for which, ab in enumerate("AB"):
+        text += f"{cfg}mk_mac_hyblock!(MacHyTarget{ab}, {h1.fn_ids[which]}, dup);\n{cfg}mk_mac_hydblock!(MacHydTarget{ab}, {h2.fn_ids[which]}, dup);\n"
+        text += f"{cfg}impl DelegateMacHy<Self> for App<{which}> {{\n    type Target = MacHyTarget{ab};\n}}\n"
+        field = f"dyn_machyd_{ab.lower()}"
+        APP_FIELDS_TYPED.append((field, f"MacHydTarget{ab}"))
+        text += (f"{cfg}impl AsRef<dyn MacHydImpl<Self>> for App<{which}> {{\n    fn as_ref(&self) -> &(dyn MacHydImpl<Self> + 'static) {{\n        sim::lookup({kd3});\n        &self.{field}\n    }}\n}}\n")
+    for h, tgt in ((h1, "MacHyTarget"), (h2, "MacHydTarget")):
+        h.trait_call = f"app.{h.name}({{args}})"
+        h.direct_call = f"{tgt}{{AB}}::{h.name}(app, {{args}})"
+        h.recv_expr = "sim::addr(app)"
+    h2.lookups = 1
+    h2.lookup_kind = kd3
     for j, tgt in ((j1, "MacTyTarget"), (j2, "MacTydTarget"), (j3, "MacParenTarget")):
         j.trait_call = f"app.{j.name}({{args}})"
         j.direct_call = f"{tgt}{{AB}}::{j.name}(app, {{args}})"
@@ -2397,6 +2488,7 @@ pub struct App<const K: u16> {{
     pub conc_gen_impl: Impl<ConcWrap<u64>>,
     pub conc_tup_impl: Impl<(ConcDep, u64)>,
     pub conc_unit_impl: Impl<()>,
+    pub copy_impl: Impl<CopyApp>,
     pub conc_clone_impl: Impl<ConcClone>,
     pub conc_arc_impl: Impl<std::sync::Arc<ConcClone>>,
     pub conc_u64_impl: Impl<u64>,
@@ -2413,6 +2505,7 @@ impl<const K: u16> App<K> {{
             conc_gen_impl: Impl::new(ConcWrap(5u64)),
             conc_tup_impl: Impl::new((ConcDep {{ pad: 3 }}, 4)),
             conc_unit_impl: Impl::new(()),
+            copy_impl: Impl::new(CopyApp {{ base: 11 }}),
             conc_clone_impl: Impl::new(ConcClone {{ name: "conc".to_string(), tags: vec![1, 2, 3] }}),
             conc_arc_impl: Impl::new(std::sync::Arc::new(ConcClone {{ name: "arc".to_string(), tags: vec![4] }})),
             conc_u64_impl: Impl::new(6u64),
@@ -2553,6 +2646,12 @@ def arm(fn, ab, is_async, mock=False):
     if fn.is_async and lazy_ok:
         body += f"            if flavor == 1 {{\n                if direct {{ drop({dc}); }} else {{ drop({tc}); }}\n                sim::call_end(__t, 0);\n                return 0;\n            }}\n"
     body += f"            let __fp = if direct {{ let __r = {dc}{aw}; {ret_fp(fn)} }} else {{ let __r = {tc}{aw}; {ret_fp(fn)} }};\n"
+    # writes through `&mut` arguments must have reached the caller's variables
+    _k = 0
+    for _p in fn.params:
+        if _p.kind == "mutw" and _p.pat != "wild":
+            body += f"            let __fp = if mw{_k} == v[{_k}] ^ 0x5a5a {{ __fp }} else {{ !__fp }};\n"
+        _k += _p.call(_k)[3]
     body += f"            sim::call_end(__t, __fp);\n            __fp\n        }}\n        // @C0\n"
     return body
 
